@@ -8,3 +8,5 @@
 // axis / in a coordinate plane) occur there, so the five leaves of the antipodal fallback are compared with the real code as well
 EXTRACT_OPT ("C10Rot", q_setRotationMod, "C10.Quat.setRotationMod", symns::Opts ().lattice (64), { IN (Quat, q); IN (Vec3, vfrom); IN (Vec3, vto); q.setRotation (vfrom, vto); c.out (q); })
 EXTRACT_OPT ("C10Rot", a_rotationMatrixMod, "C10.rotationMatrixMod", symns::Opts ().lattice (64), { IN (Vec3, vfrom); IN (Vec3, vto); c.out (rotationMatrix (vfrom, vto)); })
+// aliasing: `from` is the quaternion's own vector part (read through a reference while *this is being written)
+EXTRACT_OPT ("C10Rot", q_setRotationModAliasV, "C10.Quat.setRotationModAliasV", symns::Opts ().lattice (64), { IN (Quat, q); IN (Vec3, vto); q.setRotation (q.v, vto); c.out (q); })
